@@ -119,6 +119,7 @@ def runRec (cfg : Cfg) : List Op → Node A → List OpRec → Node A × List Op
 def isConnect : Commit A → Bool
   | .connect _ _ => true
   | .connectPrune _ _ _ => true
+  | .disconnect _ _ => true   -- a reorganisation that dies after its disconnects still moved the tip
   | _ => false
 
 /-- 1-based index of the last connect commit among log positions (s, e]. -/
